@@ -177,11 +177,15 @@ func (m *matchWorld) checkTree(t mtree, rt bool, report func(matchFail)) int {
 		}
 	}
 	n := 0
+	wants := make([]bool, len(m.ctxs))
+	for i := range m.ctxs {
+		wants[i] = t.ref.holds(m.ws[i])
+	}
 	for _, f := range forms {
 		bad := 0
 		for i, ctx := range m.ctxs {
 			got, err := f.c.Match(ctx)
-			want := t.ref.holds(m.ws[i])
+			want := wants[i]
 			n++
 			if err != nil || got != want {
 				g := fmt.Sprint(got)
@@ -199,7 +203,8 @@ func (m *matchWorld) checkTree(t mtree, rt bool, report func(matchFail)) int {
 }
 
 // runMatch enumerates all trees of depth <= 2 (inner And/Or nodes of up to w1
-// children, root And/Or of up to 2 children) and checks each.
+// children, root And/Or of up to 2 children; with w1 = 3 a child containing a
+// 3-ary node is paired with leaves only) and checks each.
 func runMatch(r *vk.Run, w1 int, cov map[string]any) {
 	m := newMatchWorld()
 	leaves := matchLeaves()
@@ -254,6 +259,9 @@ func runMatch(r *vk.Run, w1 int, cov map[string]any) {
 			for j, b := range t1 {
 				if i < nLeaves && j < nLeaves {
 					continue // depth 1: done above
+				}
+				if (!narrow[i] && j >= nLeaves) || (!narrow[j] && i >= nLeaves) {
+					continue // thorough: a child with a 3-ary node is paired with leaves only
 				}
 				n += m.checkTree(m.compose(op, a, b), narrow[i] && narrow[j], report)
 				k++
